@@ -26,6 +26,56 @@ const CODES2: [Option<&str>; 10] = [
     Some("4294967295"), Some("0000000001"),
 ];
 
+/// a method named like a keyword of another language, involved in every C09 situation at once:
+/// `w() = 1; other() = 1; w(); W()` (repeated code, repeated name, mixing, a case variant)
+fn word_case(w: &str, shape: usize) -> Case {
+    let mut item = Item::new(ItemKind::Interface, "I");
+    let mk = |name: &str, code: Option<&str>| {
+        let mut m = Method::new(Ty::void(), name, vec![]);
+        m.code = code.map(|c| c.to_string());
+        Member::Method(m)
+    };
+    let upper = w.to_ascii_uppercase();
+    let other = if upper == w { w.to_ascii_lowercase() } else { upper };
+    // the case variant must still be a plain identifier (`VOID` -> `void` is not)
+    let other = if crate::model::lex::keyword_kind(&other).is_some() || crate::model::lex::is_forbidden_name(&other) {
+        format!("{w}_")
+    } else {
+        other
+    };
+    match shape {
+        0 => {
+            item.members.push(mk(w, Some("1")));
+            item.members.push(mk("other", Some("1")));
+            item.members.push(mk(w, None));
+            item.members.push(mk(&other, Some("2")));
+        }
+        1 => {
+            item.members.push(mk("first", None));
+            item.members.push(mk(w, Some("3")));
+            item.members.push(mk(&other, Some("3")));
+        }
+        _ => {
+            item.members.push(mk(w, None));
+            item.members.push(mk(&format!("{w}2"), None));
+            item.members.push(mk(w, None));
+        }
+    }
+    let files = vec![ProjFile::from_doc_styled("obs", Document::new("p", item), false)];
+    let exp = expect_observed(&files, 0);
+    let doc = files[0].doc.as_ref().unwrap();
+    let r = files[0].rendered.as_ref().unwrap();
+    let regions = vec![Loc::within(r.start(doc.item.lbrace_tok), r.end(doc.item.span.last))];
+    let recs: Vec<Rec> = exp.recs.clone();
+    Case {
+        prop: PROP.into(),
+        kind: "foreign-word".into(),
+        label: format!("methods named `{w}`, shape {shape}"),
+        files: files.iter().map(|f| (f.id.clone(), f.text.clone())).collect(),
+        expect: expect_json(&exp, &recs, &regions, "obs"),
+    }
+}
+
 fn make_case2(seq: &[usize]) -> Case {
     let mut item = Item::new(ItemKind::Interface, "I");
     for s in seq {
@@ -229,6 +279,21 @@ pub fn run(tier: Tier, seed: u64) -> i32 {
             check_case,
         );
         stats.space(json!({"space": "data values", "names": NAMES2, "codes": CODES2, "sequences_up_to": k2, "cases": total}));
+    }
+    {
+        let words: Vec<&str> = crate::model::gen::FOREIGN_WORDS.iter().chain(crate::model::gen::NEAR_KEYWORD_NAMES.iter()).copied().collect();
+        super::drive(
+            &stats,
+            words.len() * 3,
+            1,
+            |i| {
+                let c = word_case(words[i / 3], i % 3);
+                stats.nontrivial(fnv(&c.files[0].1));
+                Some(c)
+            },
+            check_case,
+        );
+        stats.space(json!({"space": "methods named like foreign keywords / near-keywords", "words": words.len(), "shapes": 3}));
     }
     let sizes = [9usize, 10, 11, 12, 16, 17, 24, 33, 40];
     super::drive(
